@@ -4,7 +4,8 @@ CHECK = {
              "(model variant, incident particle, material/element, production cuts, incident energy from "
              "{E_min, next(E_min), 6 log-uniform interior points, every internal branch threshold read "
              "from the code/model data -1/0/+1 ulp, prev(E_max), E_max}) x 14 incident directions "
-             "(6 axes + 8 diagonals) x all RNG scripts (quick: all 5^4 prefixes over "
+             "(6 axes + 8 diagonals; em part: + 4 letters for the near-pole branch of the shared rotate() "
+             "helper: 1e-3 rad off +-z with negative y, and (0,0,+-(1-2^-53))) x all RNG scripts (quick: all 5^4 prefixes over "
              "{2^-32, 1/4, 1/2, 3/4, 1-2^-32} on the first 4 canonicals; thorough: those + every script "
              "with <= 2 forced canonicals, 7-letter alphabet incl. the extreme 32-bit words, anywhere in "
              "the first 16; unforced canonicals from a fixed splitmix64 tail) x secondary storage "
@@ -19,19 +20,33 @@ CHECK = {
         "model listed at the top of harness/c04_em.cc and harness/c04_muhad.cc)",
         "open lower applicability ends (0, ...) are represented by 1e-6 MeV (1e-7 MeV for Livermore PE), "
         "infinite upper ends by the EM high-energy limit 1e8 MeV; the smallest production cut is 1e-4 MeV",
-        "a scripted canonical has lower word 0x80000000: an exactly-zero canonical is never produced",
+        "a scripted canonical has lower word 0x00100000 (canonical = upper*2^-32 + 2^-33, the middle of "
+        "the cell): an exactly-zero canonical is never produced",
         "element data: Livermore PE / atomic relaxation Z=19, Seltzer-Berger Z=29 (the files shipped in "
         "test/celeritas/data); other models: He, O, K, Cu, W, Pb and a three-element compound",
         "momentum balance is only required of models that return all products of a two-body process "
         "(Klein-Nishina with surviving electron, Moller, Bhabha, e+ annihilation, mu/hadron ionisation); "
         "photoelectric, Rayleigh, pair production, bremsstrahlung and Coulomb scattering leave momentum "
         "with the atom/nucleus",
+        "muhad part: scripted canonicals use lower word 0x00100000 (the true middle of the 2^-32 cell: "
+        "canonical = ((upper<<21) ^ lower)*2^-53); thorough adds two lower fills giving 2^-53-scale "
+        "canonicals whose failures are recorded as observations only",
+        "muhad part: Coulomb [1e-4, prev(1e8)] MeV (combined mode: above the energy where the polar range "
+        "is non-empty); mu ionisation ICRU73QO/Bragg [1e-4, 0.2], Bethe-Bloch [0.2, 1e3], mu-Bethe-Bloch "
+        "[0.2, 1e8] MeV, always E > T_min; proton Bragg [1e-3, 2] / Bethe-Bloch [2, 1e5] MeV as hadron "
+        "extension; mu-brems [1e-2, 1e8] MeV and E > gamma cut; CHIPS [1e-5, 2e4] MeV on 1H, 3He, 4He, "
+        "6Li, 7Li, 63Cu, 65Cu, 208Pb (flat stand-in xs tables for Z without a bundled file; the "
+        "interactor never reads them)",
+        "muhad part: CHIPS recoil nucleus is not returned; its kinetic energy is the local deposit, so "
+        "two-body kinematics (deposit == sqrt(|p_in-p_out|^2+M^2)-M) is checked instead of a momentum sum",
     ],
-    "bounds": {"quick": {"rng_prefix_k": 4, "rng_alphabet": 5, "scripts": 625, "directions": 14,
+    "bounds": {"quick": {"rng_prefix_k": 4, "rng_alphabet": 5, "scripts": 625, "directions": 18,
                          "interior_energies": 6, "max_words": 10000},
                "thorough": {"rng_prefix_k": 4, "rng_alphabet": 5, "deviations": 2, "deviation_window": 16,
-                            "deviation_alphabet": 7, "scripts": 6618, "directions": 14,
-                            "interior_energies": 6, "max_words": 10000}},
+                            "deviation_alphabet": 7, "scripts": 6618, "directions": 18,
+                            "interior_energies": 6, "max_words": 10000,
+                            "muhad": {"scripts": 5236, "interior_energies": 12,
+                                      "interior_energies_coulomb_mubrems": 8, "chips_energies": 16}}},
     "parts": [
         {"name": "em", "harness": "c04_em", "flavour": "rel",
          "shards": {"quick": 16, "thorough": 16}, "deadline": {"quick": 120, "thorough": 1100}},
